@@ -96,7 +96,7 @@ class CliFailures(Stream):
         elif k < 0.78:
             # unusable arguments: the command line must answer with a diagnostic and exit status 1
             case["usage"] = rng.choice(["missing-find-links", "missing-source", "no-repository", "missing-input", "missing-constraints"])
-        elif k < 0.9:
+        elif k < 0.86:
             # one release comes as a source archive; another location, listed first, holds a file of the same name that cannot
             # be analysed (a broken mirror copy): the readable copy is still on offer
             n = rng.choice(names)
@@ -104,6 +104,17 @@ class CliFailures(Stream):
             if not any("extra ==" in r for r in case["universe"][n][v]):
                 case["sdists"] = [[n, v]]
                 case["twin"] = [n, v]
+        else:
+            # the newest one or two releases of a project are unreadable - each of them in several files (builds for other
+            # tag sets, a re-upload with a build number); an older release is fine. The step-down budget counts releases
+            multi = [n for n in names if len(case["universe"][n]) >= 2]
+            if multi:
+                n = rng.choice(multi)
+                vs = sorted(case["universe"][n], key=GL.V, reverse=True)
+                bad = vs[: rng.randint(1, min(2, len(vs) - 1))]
+                case["corrupt"] = [[n, v] for v in bad]
+                case["corrupt_kind"] = rng.choice(["not-a-zip", "unparsable-requirement"])
+                case["corrupt_more_files"] = [[n, v, rng.randint(1, 3)] for v in bad]
         return case
 
     def impl(self, case):
@@ -120,6 +131,13 @@ class CliFailures(Stream):
                     f.write(B.wheel_bytes(n, v, requires=["python-dateutil (>=2.8.*)"]))    # a bound no PEP 508 parser accepts
                 else:
                     f.write(b"PK\x03\x04 this is not a wheel")
+        for n, v, count in case.get("corrupt_more_files", []):
+            for fn in [B.wheel_name(n, v, py="py2.py3"), B.wheel_name(n, v + "-1"), B.wheel_name(n, v, py="py312")][:count]:
+                with open(os.path.join(d, "links", fn), "wb") as f:
+                    if case.get("corrupt_kind") == "unparsable-requirement":
+                        f.write(B.wheel_bytes(n, v, requires=["python-dateutil (>=2.8.*)"]))
+                    else:
+                        f.write(b"PK\x03\x04 this is not a wheel")
         files = write_inputs(d, case["inputs"])
         usage = case.get("usage")
         if usage:
@@ -177,6 +195,8 @@ class CliFailures(Stream):
                 fl.append("diagnostic:" + kind)
         if case["corrupt"]:
             fl.append("corrupt-wheel")
+        if case.get("corrupt_more_files"):
+            fl.append("unreadable-releases-in-several-files-each")
         if case.get("twin"):
             fl.append("unreadable-same-named-archive-listed-first")
         if r["exception"]:
@@ -239,6 +259,12 @@ class CliFailures(Stream):
         offered = self._versions(case, key)
         if kind == "absent" and offered:
             fails.append(("C09/says-absent-but-offered/" + region, {"project": key, "offered": offered}))
+        if kind == "unworkable" and offered:
+            # "which truly no offered candidate satisfies": a readable release is on offer; giving up is only in order
+            # after the configured number (3) of distinct releases with unreadable metadata
+            bad_releases = {v for n, v in case["corrupt"] if GL.norm(n) == key}
+            if len(bad_releases) < 3:
+                fails.append(("C09/says-no-working-candidate-but-a-readable-one-is-offered/" + region, {"project": key, "readable": offered, "unreadable releases": sorted(bad_releases)}))
         if kind in ("unsatisfied", "impossible"):
             try:
                 spec = GL.P(m.group(2)).specifier
